@@ -631,7 +631,10 @@ OnDiscard(m, o) ==
     IF o.k \notin DOMAIN m.cmd THEN V(m, "C00", "discard of an unknown command") ELSE
     LET c == m.cmd[o.k]
         m1 == Chk(m, c.st = "postponed", "C02", "a command that was not postponed was discarded")
-        m2 == IF c.s \in m.alive THEN V2(m1, "C02", "C09", "a postponed command was discarded although its target system exists") ELSE m1
+        m2a == IF c.s \in m.alive THEN V2(m1, "C02", "C09", "a postponed command was discarded although its target system exists") ELSE m1
+        \* ... and when it was a reaction, a matching live registration got no run for that trigger
+        m2 == IF c.s \in m.alive /\ c.kind \in {"bc", "eev", "res", "ereact"}
+              THEN V(m2a, "C01", "a reaction scheduled for a live registration was thrown away instead of run") ELSE m2a
     IN ReleaseReader(SetCmd(m2, o.k, "discarded"), c)
 
 OnExit(m, o) ==
